@@ -336,3 +336,44 @@ package federation
 // every peer is told, once, when the last holder left: afterwards the topic has no count and at most one event went to each peer
 //@ ensures [C17] forall n string :: has(f.peers, n) ==> f.peers[n].queue.$qadds <= old(f.peers[n].queue.$qadds) + 1
 //@ ensures [C17] has(L.topics, topicName) ==> (forall n string :: has(f.peers, n) ==> f.peers[n].queue.$qadds == old(f.peers[n].queue.$qadds))
+
+// unsubscribeAll (the client's session ended): the client holds nothing afterwards; the count of every topic it held
+// goes down by one (a topic that reaches 0 loses its entry) and no other count changes; a topic is reported as removed
+// only if nobody holds it any more.
+//@ func (*localSubStore).unsubscribeAll
+//@ props C17
+//@ requires [C17] lsOK(l)
+//@ modifies map(l.index), map(l.topics), allelems(string)
+//@ loop 1 invariant lsOK(l) && l == old(l) && l.index == old(l.index) && l.topics == old(l.topics) && (forall c string :: has(l.index, c) == old(has(l.index, c)) && l.index[c] == old(l.index[c])) && (forall c string, t string :: holds(l, c, t) == old(holds(l, c, t)))
+//@ loop 1 invariant forall t string :: !old(holds(l, clientID, t)) || !visited(1, t) ==> has(l.topics, t) == old(has(l.topics, t)) && l.topics[t] == old(l.topics[t])
+//@ loop 1 invariant forall t string :: old(holds(l, clientID, t)) && visited(1, t) && old(has(l.topics, t)) && old(l.topics[t]) > 1 ==> has(l.topics, t) && l.topics[t] == old(l.topics[t]) - 1
+//@ loop 1 invariant forall t string :: old(holds(l, clientID, t)) && visited(1, t) && !(old(has(l.topics, t)) && old(l.topics[t]) > 1) ==> !has(l.topics, t)
+//@ loop 1 invariant forall i int :: 0 <= i && i < len(remove) ==> visited(1, remove[i])
+//@ loop 1 invariant forall i int :: 0 <= i && i < len(remove) ==> !has(l.topics, remove[i])
+//@ ensures [C17] !has(l.index, clientID) && lsOK(l)
+//@ ensures [C17] forall c string, t string :: c != clientID ==> holds(l, c, t) == old(holds(l, c, t))
+//@ ensures [C17] forall t string :: !old(holds(l, clientID, t)) ==> has(l.topics, t) == old(has(l.topics, t)) && l.topics[t] == old(l.topics[t])
+//@ ensures [C17] forall t string :: old(holds(l, clientID, t)) && old(has(l.topics, t)) && old(l.topics[t]) > 1 ==> has(l.topics, t) && l.topics[t] == old(l.topics[t]) - 1
+//@ ensures [C17] forall t string :: old(holds(l, clientID, t)) && !(old(has(l.topics, t)) && old(l.topics[t]) > 1) ==> !has(l.topics, t)
+//@ ensures [C17] forall i int :: 0 <= i && i < len(remove) ==> !has(l.topics, remove[i])
+
+//@ func type server.OnSessionTerminated
+//@ params ctx, clientID, reason
+//@ modifies heap, $preCalls
+//@ preserves all(Federation.*), all(peer.*), all(localSubStore.*), allmaps(string, *peer), allmaps(string, uint64), allmaps(string, struct{}), allmaps(string, map[string]struct{}), allcells(*Federation)
+//@ ensures $preCalls == old($preCalls) + 1
+
+// OnSessionTerminated wrapper: the ended session's client stops holding anything; every peer is sent one Unsubscribe
+// event per topic that lost its last local holder — and nothing otherwise.
+//@ func (*Federation).OnSessionTerminatedWrapper$1
+//@ props C17
+//@ requires [C17] f != nil && pre != nil && peersOK(f) && lsOK(f.localSubStore) && f.localSubStore != nil
+//@ modifies heap, $preCalls, ghostall(queue.$qadds), ghostall(queue.$lastEv)
+//@ loop 1 invariant f != nil && f == old(f) && peersOK(f) && f.peers == old(f.peers) && len(unsubs) > 0
+//@ loop 1 invariant forall n string :: has(f.peers, n) ==> f.peers[n].queue.$qadds == old(f.peers[n].queue.$qadds) + (visited(1, n) ? len(unsubs) : 0)
+//@ loop 2 invariant f != nil && f == old(f) && peersOK(f) && f.peers == old(f.peers) && v != nil && len(unsubs) > 0
+//@ loop 2 invariant forall n string :: has(f.peers, n) && f.peers[n] != v ==> f.peers[n].queue.$qadds == at(iter1, f.peers[n].queue.$qadds)
+//@ loop 2 invariant v.queue.$qadds == at(iter1, v.queue.$qadds) + $k + 1
+//@ call queue.add#1 assert [C17] event != nil && event.Event.(type *Event_Unsubscribe) && event.Event.(*Event_Unsubscribe) != nil && event.Event.(*Event_Unsubscribe).Unsubscribe != nil && event.Event.(*Event_Unsubscribe).Unsubscribe.TopicName == topicName && topicName == unsubs[rangeindex]
+//@ ensures [C17] $preCalls == old($preCalls) + 1 && !has(f.localSubStore.index, clientID)
+//@ ensures [C17] forall n string :: has(f.peers, n) ==> f.peers[n].queue.$qadds == old(f.peers[n].queue.$qadds) + len(unsubs)
